@@ -24,6 +24,7 @@ type ModSet struct {
 	Descs   map[string]RegionDesc
 	All     bool
 	Reads   bool // may read from an underlying io.Reader (moves the ghost tape cursor)
+	Writes  bool // may write to an underlying io.Writer (moves the ghost output cursor)
 }
 
 func newModSet() *ModSet {
@@ -50,6 +51,10 @@ func (m *ModSet) union(o *ModSet) bool {
 	}
 	if (o.Reads || o.All) && !m.Reads {
 		m.Reads = true
+		ch = true
+	}
+	if (o.Writes || o.All) && !m.Writes {
+		m.Writes = true
 		ch = true
 	}
 	for _, d := range o.Descs {
@@ -191,7 +196,10 @@ func (p *Program) callMods(cc *ssa.CallCommon, ms *ModSet) {
 			ms.add(descElem(types.Typ[types.Uint8]))
 			ms.add(descAlloc)
 			ms.Reads = true
-		case "(io.Writer).Write", "(error).Error":
+		case "(io.Writer).Write":
+			ms.add(descAlloc)
+			ms.Writes = true
+		case "(error).Error":
 			ms.add(descAlloc)
 		default:
 			ms.All = true
@@ -271,6 +279,7 @@ func (p *Program) callMods(cc *ssa.CallCommon, ms *ModSet) {
 	switch key {
 	case "fmt.Fprintf", "fmt.Fprint", "fmt.Fprintln", "io.WriteString", "(*text/template.Template).ExecuteTemplate", "(*text/template.Template).Execute":
 		ms.All = true
+		ms.Writes = true
 		return
 	}
 	if key == "io.ReadFull" {
